@@ -193,12 +193,14 @@ theorem skipBelow_ok (dlim B : ℝ) : ∀ (fuel : Nat) (lo nx : ℝ × ℝ) (res
     obtain ⟨hc, hf0, hd0, hle, hlim0, hlast⟩ := h
     have hc' := List.isChain_cons_cons.1 hc
     unfold skipBelow
-    by_cases hgt : dlim > nx.2
+    by_cases hgt : dlim ≥ nx.2
     · rw [if_pos hgt]
       cases rest with
       | nil =>
         simp only [List.getLast_singleton] at hlast
-        exact absurd hlast (not_le.2 hgt)
+        exact
+          { f0 := hf0, f1 := hc'.1.1, d0 := hd0, d1 := hc'.1.2, lim0 := hlim0, lim1 := hlast,
+            chain := List.IsChain.imp (fun _ _ hab => hab.1.le) hc'.2, le := hle }
       | cons t rest' =>
         simp only
         have hc'' := List.isChain_cons_cons.1 hc'.2
@@ -215,7 +217,7 @@ theorem skipBelow_ok (dlim B : ℝ) : ∀ (fuel : Nat) (lo nx : ℝ × ℝ) (res
         · simp only [List.length_cons] at hl; omega
     · rw [if_neg hgt]
       exact
-        { f0 := hf0, f1 := hc'.1.1, d0 := hd0, d1 := hc'.1.2, lim0 := hlim0, lim1 := not_lt.1 hgt,
+        { f0 := hf0, f1 := hc'.1.1, d0 := hd0, d1 := hc'.1.2, lim0 := hlim0, lim1 := (not_le.1 hgt).le,
           chain := List.IsChain.imp (fun _ _ hab => hab.1.le) hc'.2, le := hle }
 
 end Spec.Fracs
